@@ -76,6 +76,11 @@ class MacroVisitor(ExplorerScriptVisitor):
     def visitMacrodef_children(self, macrodef_handler: MacroDefCompileHandler) -> ExplorerScriptMacro:
         """Visit the children of the macro def, after the macro resolution order has been processed"""
         self._root_handler = macrodef_handler
+        # Every macro gets its own source map. Sharing one builder between all macros of a file attributed
+        # the position marks of all of them to each one, and made ExplorerScriptMacro.build append to the
+        # list it was iterating over when a macro with position marks was called from another macro.
+        self.source_map_builder = SourceMapBuilder()
+        self.compiler_ctx.source_map_builder = self.source_map_builder
         self.visitChildren(macrodef_handler.ctx)
 
         blueprints = self._root_handler.collect()
